@@ -133,6 +133,29 @@ def h_dense(f, ns, mode):
     return body
 
 
+def h_fpbridge(which):
+    """QF_FP bridging lemma: for finite IEEE binary64 x, c the rounded difference has the sign of the real one, so the
+    sign soundness shown over the reals survives rounding for one-variable predicates x ~ c."""
+    def body(env):
+        import z3
+        A = env.A
+        env.real('dummy')
+        x, c = z3.FP('fp_x', z3.Float64()), z3.FP('fp_c', z3.Float64())
+        fin = z3.And(z3.Not(z3.fpIsNaN(x)), z3.Not(z3.fpIsInf(x)), z3.Not(z3.fpIsNaN(c)), z3.Not(z3.fpIsInf(c)))
+        d = z3.fpSub(z3.RNE(), x, c)
+        zero = z3.FPVal(0.0, z3.Float64())
+        claim = {'pos': z3.fpGT(d, zero) == z3.fpGT(x, c), 'neg': z3.fpLT(d, zero) == z3.fpLT(x, c),
+                 'zero': z3.fpEQ(d, zero) == z3.fpEQ(x, c)}[which]
+        s = z3.Solver()
+        s.set('timeout', 300000)
+        s.add(fin, z3.Not(claim))
+        r = s.check()
+        if r == z3.unknown:
+            raise symx.Inconclusive('QF_FP bridge lemma: solver unknown')
+        return [('fp-bridge-' + which, A.bool(r == z3.unsat))]
+    return body
+
+
 PAST = set(refsem.PAST) | {'not', 'and', 'or', 'implies'}
 
 
@@ -183,6 +206,8 @@ def obligations(tier, rng):
     dn = [3] if quick else [2, 3, 4]
     dense_un = ['not', 'once', 'historically', 'eventually', 'always']
     atoms = [('geq', X, C), ('lt', X, C), ('eq', X, C), ('neq', X, C), ('and', ('geq', X, C), ('leq', X, ('const', 2.0)))]
+    for which in ('pos', 'neg', 'zero'):
+        out.append(ob('C07', 'fpbridge', 'fp-bridge/%s' % which, which=which, validate=0, wall=600))
     for n in dn:
         for at in atoms:
             fs = [at] + [(k, at) for k in dense_un] + [(k, at, a, b) for k in ('once_t', 'historically_t', 'eventually_t', 'always_t')
